@@ -172,8 +172,11 @@ Record v5_params := {
 
 (* compute_encryption_parameters_V5; rnd = the bytes the random data provider returns, in call
    order: file key 32, user validation salt 8, user key salt 8, owner validation salt 8, owner key
-   salt 8, /Perms filler 4. The passwords are used as given (no truncation to 127 bytes here). *)
-Definition kd_compute_parameters_V5 (ed : enc_data) (user_pw owner_pw rnd : list N) : v5_params :=
+   salt 8, /Perms filler 4. The passwords are truncated to 127 bytes first, as the checking side does
+   (fix 032abc49; before it the whole password was hashed and files with longer passwords could not be opened). *)
+Definition kd_compute_parameters_V5 (ed : enc_data) (user_pw_p owner_pw_p rnd : list N) : v5_params :=
+  let user_pw := firstn 127 user_pw_p in
+  let owner_pw := firstn 127 owner_pw_p in
   let R := ed_R ed in
   let key := firstn 32 rnd in
   let uvs := firstn 8 (skipn 32 rnd) in
